@@ -203,9 +203,9 @@ Proof. exact w_legit_ok. Qed.
 
 (* state that get_metrics does not report (model of the code only; not observable through the
    public API, hence not covered by the monitor).  After browse / stop_browse: an instance whose
-   SRV never came waits in pending_resolves during its three follow-up queries and leaves it
-   when they are over (since the repair e9e74a6); a PTR owner that was refused as "not for us"
-   keeps an (empty) bucket in the PTR map for ever *)
+   SRV never came waits in pending_resolves until its first follow-up comes due and leaves it
+   then, because no cached PTR points to it any more (repairs e9e74a6, 48ec5c0); a PTR owner that
+   was refused as "not for us" keeps an (empty) bucket in the PTR map for ever *)
 Example C20_hidden_growth_model :
   b_pending (state_after PCode (b_init t0) (firstn 4 w_hidden))
   = [[97; 108; 112; 104; 97; 46; 95; 104; 116; 116; 112; 46; 95; 116; 99; 112; 46; 108; 111; 99; 97; 108; 46]]
